@@ -1,5 +1,6 @@
 import Model.Block
 import Drv.C01
+import Model.TypeStr
 namespace Drv.C02
 open Model Model.Col Model.Block Drv Drv.Sexp Drv.C01
 
@@ -32,7 +33,7 @@ def cmdBlock (rev bucket rows : String) (rest : String) : String :=
 def cmdDec (rev lim hex : String) (rest : String) : String :=
   match rev.toNat?, optNat lim, fromHex hex, Sexp.parse rest >>= parseSchema with
   | some v, some lim, some bs, some schema =>
-    let cfg : Cfg := { strLim := lim, cap := none }
+    let cfg : Cfg := { strLim := lim, cap := none, compat := fun a b => !TypeStr.conflicts TypeStr.asciiExt a b }
     match Block.dec cfg v schema bs with
     | .ok (none, r) => "ok end " ++ toString r.length
     | .ok (some (bk, rows, cols), r) =>
